@@ -235,6 +235,80 @@ func init() {
 				return true
 			})
 		}
+		// verifyPlanInputs: the condition under which the database file of a checkpoint operation is
+		// CRC-checked before an interrupted plan is resumed, as source text
+		var cond []string
+		if fd := x.Func("snapshot", "Store", "verifyPlanInputs"); fd != nil {
+			ast.Inspect(fd.Body, func(n ast.Node) bool {
+				switch t := n.(type) {
+				case *ast.AssignStmt:
+					if len(t.Lhs) == 1 && x.Src(t.Lhs[0]) == "untouched" && t.Tok == token.DEFINE {
+						cond = append(cond, "untouched := "+x.Src(t.Rhs[0]))
+					}
+				case *ast.RangeStmt:
+					if x.Src(t.X) == "op.WALs" {
+						for _, st := range t.Body.List {
+							if is, ok := st.(*ast.IfStmt); ok {
+								for _, b := range is.Body.List {
+									if as, ok := b.(*ast.AssignStmt); ok && len(as.Lhs) == 1 && x.Src(as.Lhs[0]) == "untouched" {
+										cond = append(cond, "for "+x.Src(t.Value)+" in op.WALs: if "+x.Src(is.Cond)+" { untouched = "+x.Src(as.Rhs[0])+" }")
+									}
+								}
+							}
+						}
+					}
+				case *ast.IfStmt:
+					for _, c := range x.Calls(t.Body, "check") {
+						if len(c.Args) == 1 && x.Src(c.Args[0]) == "op.DB" {
+							cond = append(cond, "if "+x.Src(t.Cond)+" { check(op.DB) }")
+						}
+					}
+				}
+				return true
+			})
+		}
+		x.DefStrings("resumeDbCheckCondition", cond)
+		// both places that resume a plan read from disk verify its inputs before executing it
+		resumeChecks := true
+		nResume := 0
+		for _, fn := range []string{"reapInternal", "check"} {
+			fd := x.Func("snapshot", "Store", fn)
+			if fd == nil {
+				resumeChecks = false
+				continue
+			}
+			ast.Inspect(fd.Body, func(n ast.Node) bool {
+				b, ok := n.(*ast.BlockStmt)
+				if !ok {
+					return true
+				}
+				read, verify, exec := token.NoPos, token.NoPos, token.NoPos
+				for _, st := range b.List {
+					if _, isAssign := st.(*ast.AssignStmt); isAssign && len(x.Calls(st, "ReadFromFile")) > 0 && read == token.NoPos {
+						read = st.Pos()
+					}
+					if cs := x.Calls(st, "verifyPlanInputs"); len(cs) > 0 && verify == token.NoPos {
+						verify = cs[0].Pos()
+					}
+					if cs := append(x.Calls(st, "executeReapPlan"), x.Calls(st, "Execute")...); len(cs) > 0 && exec == token.NoPos && read != token.NoPos && st.Pos() > read {
+						exec = cs[0].Pos()
+						for _, c := range cs {
+							if c.Pos() < exec {
+								exec = c.Pos()
+							}
+						}
+					}
+				}
+				if read != token.NoPos && exec != token.NoPos {
+					nResume++
+					if !(verify != token.NoPos && read < verify && verify < exec) {
+						resumeChecks = false
+					}
+				}
+				return true
+			})
+		}
+		x.DefBool("resumeChecksBeforeExecuting", resumeChecks && nResume >= 2)
 		x.DefStrings("reapFreshPathSteps", fresh)
 		x.DefBool("reapVerifiesOnlyWhenNotResuming", verifiesOnlyFresh)
 		x.DefString("reapInputsCheckGuard", inputsGuard)
